@@ -11,10 +11,17 @@
 (*   in this sandbox and binds the model to the code.                      *)
 (***************************************************************************)
 EXTENDS GenericImpl, VssCodec, CanBuild
+(* Two implementation styles satisfy C14 and the model enumerates both (a crossed build can only be predicted under a model of    *)
+(* HOW the code reaches multi-byte wire values):                                                                                  *)
+(*   AccStyle   "walk"    header fields through the quadlet walk and the 32-bit helpers of the selected set (the tree today)       *)
+(*              "bits"    header fields assembled from single bytes: no helper involved, the same on every host                   *)
+(*   CodecStyle "helpers" VSS units converted with the helper of the selected set and stored as host objects (the tree today)     *)
+(*              "bytes"   VSS units stored / loaded byte by byte in wire order                                                    *)
+CONSTANTS AccStyle, CodecStyle
 
 Desc(v, n) == LET f == FieldOf(v, n) IN D(f.start \div 32, f.start % 32, f.w)
-XGet(host, br, m, h, v, n)    == GetImpl(host, br, m, h, Desc(v, n))
-XSet(host, br, m, h, v, n, x) == SetImpl(host, br, m, h, Desc(v, n), x)
+XGet(host, br, m, h, v, n)    == IF AccStyle = "bits" THEN GetBits(m, h, Desc(v, n)) ELSE GetImpl(host, br, m, h, Desc(v, n))
+XSet(host, br, m, h, v, n, x) == IF AccStyle = "bits" THEN SetBits(m, h, Desc(v, n), x) ELSE SetImpl(host, br, m, h, Desc(v, n), x)
 
 RECURSIVE XPutConsts(_, _, _, _, _, _, _)
 XPutConsts(host, br, m, h, v, cs, i) ==
@@ -34,8 +41,8 @@ XBuild(host, br, m, h, kind, id, fd, payload) ==
   IN  XSet(host, br, m6, h, v, "pad", V64(pad))
 
 \* ---- VSS codec: a k-byte unit written / read as a host object after conversion
-Unit(host, br, v) == Store(host, Helper(br, "CpuToBe", v))          \* memory image of a unit holding logical value v
-UnUnit(host, br, img) == Helper(br, "BeToCpu", Load(host, img))
+Unit(host, br, v) == IF CodecStyle = "bytes" THEN v ELSE Store(host, Helper(br, "CpuToBe", v))          \* memory image of a unit holding logical value v
+UnUnit(host, br, img) == IF CodecStyle = "bytes" THEN img ELSE Helper(br, "BeToCpu", Load(host, img))
 RECURSIVE Units(_, _, _, _)
 Units(host, br, bytes, s) ==                                          \* every s-byte element converted separately
   IF Len(bytes) < s \/ s = 1 THEN bytes
